@@ -129,6 +129,7 @@ func Load(repo, goos, goarch string) (*Program, error) {
 	}
 	p.NumFuncs = len(ssautil.AllFunctions(prog))
 	InitFieldCanon(p)
+	InitFuncCanon(p)
 	return p, nil
 }
 
@@ -173,7 +174,14 @@ func (p *Program) Func(pkg, name string) *ssa.Function {
 	if sp == nil {
 		return nil
 	}
-	return sp.Func(name)
+	if f := sp.Func(name); f != nil {
+		return f
+	}
+	// carried on under another name (see funcCanon)
+	if g := renamedTo[pkg+"."+name]; g != nil {
+		return p.SSA.FuncValue(g)
+	}
+	return nil
 }
 
 // Method returns the SSA function of method name on type tname (ptr selects *T).
@@ -202,10 +210,16 @@ func (p *Program) Method(pkg, tname, name string) *ssa.Function {
 	}
 	// a method of a generic type: the function built for its declaration
 	for i := 0; i < n.NumMethods(); i++ {
-		if m := n.Method(i); m.Name() == name {
+		if m := n.Method(i); FNm(m) == name {
 			if g := p.SSA.FuncValue(m); g != nil && len(g.Blocks) > 0 {
 				return g
 			}
+		}
+	}
+	// carried on under another name (see funcCanon)
+	for _, recv := range []string{"(*" + pkg + "." + tname + ")", "(" + pkg + "." + tname + ")"} {
+		if g := renamedTo[recv+"."+name]; g != nil {
+			return p.SSA.FuncValue(g)
 		}
 	}
 	return nil
